@@ -41,8 +41,15 @@ func generate(w *mon.W) {
 	g := &gen.Syn{Rng: rng}
 	n := w.Pick(15_000, 300_000)
 	for _, kind := range gen.WideKinds {
-		for _, sz := range gen.WideSizes {
-			if sz > 130 && w.Quick() {
+		sizes := gen.WideSizes
+		switch kind {
+		case "in", "in-lits", "in-consts", "wheres", "and", "plus", "project", "lets", "call-args", "statements":
+			// lists and chains of a thousand and more elements: the traversal's
+			// work list is as long as the widest level, not as the deepest path
+			sizes = append(append([]int{}, sizes...), 999, 1000, 1001, 1025, 2049)
+		}
+		for _, sz := range sizes {
+			if sz > 130 && sz < 999 && w.Quick() {
 				continue
 			}
 			c := &Case{Prog: gen.Wide(kind, sz)}
@@ -211,8 +218,9 @@ func Check(c *Case, r *mon.R) {
 			}
 		}
 		// re-entrancy: a visitor may itself walk the subtree it is given (twice);
-		// the outer traversal must be unaffected
-		{
+		// the outer traversal must be unaffected (quadratic work for the
+		// visitor: only on trees of moderate size)
+		if len(order) <= 400 {
 			var outer []*RNode
 			inner := 0
 			o := mon.Walk(st, func(n parser.Node) bool {
@@ -336,6 +344,9 @@ func Check(c *Case, r *mon.R) {
 					typesSeen[n.TypeName] = true
 					types = append(types, n.TypeName)
 				}
+			}
+			if si >= 3 {
+				types = nil // the source is parsed afresh for every history: the first statements only
 			}
 			if len(types) > 4 {
 				rng.Shuffle(len(types), func(i, j int) { types[i], types[j] = types[j], types[i] })
